@@ -145,6 +145,10 @@ class KGCond(list):
 
 
 class KGUndefined:
+    def __reduce__(self):
+        # pickle by reference: :undefined is tested by identity, also after IPC transport
+        return 'KLONG_UNDEFINED'
+
     def __repr__(self):
         return ":undefined"
 
